@@ -57,6 +57,20 @@ func textFile(c *core.Ctx) {
 		lists = append(lists, l)
 	}
 
+	// literal LENGTH as a dimension: one long line first / in the middle / last
+	nRandomLists := len(lists)
+	longLens := []int{0, 1, 4095, 4096, 4097, 65535, 65536, 65537, 200000}
+	if !c.Quick() {
+		longLens = append(longLens, 1<<20, 1<<20+1)
+	}
+	for _, n := range longLens {
+		for pos := 0; pos < 3; pos++ {
+			l := []string{`<p title=\"`, `\">é`, `</p>`}
+			l[pos] = longLiteral(n)
+			lists = append(lists, l)
+		}
+	}
+
 	me := thisFile()
 	var reqs []drv.Req
 	type want struct {
@@ -67,17 +81,32 @@ func textFile(c *core.Ctx) {
 		panic bool
 	}
 	var wants []want
-	joinOK, splitOK := true, true
+	joinOK, splitOK, specOK := true, true, true
 	var jreq, sreq []drv.Req
 	var jwant []string
 	var swant [][]string
 	for i, l := range lists {
 		file := strings.Join(l, "\n")
-		switch c.Rng.Intn(8) { // a few files that no writer of ours produces
-		case 0:
-			file += "\n"
-		case 1:
-			file = strings.ReplaceAll(file, "\n", "\r\n")
+		damaged := false
+		if i < nRandomLists {
+			switch c.Rng.Intn(8) { // a few files that no writer of ours produces
+			case 0:
+				file += "\n"
+				damaged = true
+			case 1:
+				file = strings.ReplaceAll(file, "\n", "\r\n")
+				damaged = true
+			}
+		}
+		// the specification predicate is evaluated on files of well-formed literals
+		wellFormed := !damaged && len(l) > 0
+		vals := make([]string, len(l))
+		for k, s := range l {
+			v, ok := goUnquote([]byte(s))
+			if !ok || strings.Contains(s, "\n") {
+				wellFormed = false
+			}
+			vals[k] = v
 		}
 		dir := filepath.Join(tmp, strconv.Itoa(i))
 		os.MkdirAll(dir, 0o755)
@@ -99,6 +128,26 @@ func textFile(c *core.Ctx) {
 			var buf bytes.Buffer
 			err, panicked := devWriteString(&buf, idx, "compiled-in literal")
 			wants = append(wants, want{file, idx, err == nil && !panicked, buf.String(), panicked})
+			if wellFormed && idx >= 1 && idx <= len(l) {
+				c.Hist("text file: line length " + lenBucket(len(l[idx-1])))
+				if err != nil || panicked || buf.String() != vals[idx-1] {
+					specOK = false
+					if c.NFails("text file: development-mode WriteString(i) writes literal i of the written file") < 6 {
+						lens := make([]int, len(l))
+						for k := range l {
+							lens[k] = len(l[k])
+						}
+						e := ""
+						if err != nil {
+							e = err.Error()
+						}
+						c.Fail("property", "text file: development-mode WriteString(i) writes literal i of the written file", "dev-lookup-differs-from-literal",
+							map[string]any{"literals": abbrAll(l), "literal_lengths": lens, "index": idx, "error": e, "written": abbr(buf.String()), "expected": abbr(vals[idx-1]),
+								"long_literal_recipe": "a literal of length n >= 2 is backslash, double quote, then n-2 letters a"},
+							"the file is strings.Join of well-formed literals, yet the development-mode lookup of an index in range fails or yields other bytes than the literal denotes")
+					}
+				}
+			}
 			reqs = append(reqs, drv.Req{Fn: "lookup", Args: [][]byte{[]byte(file), []byte(strconv.Itoa(idx))}})
 			c.Count(fmt.Sprintf("lk:%s\x00%d", file, idx))
 		}
@@ -111,6 +160,9 @@ func textFile(c *core.Ctx) {
 		if w.ok {
 			nOK++
 		}
+		if len(r) == 1 && string(r[0]) == "!stack" { // the extracted model's recursion depth: lines of 200 kB and more are judged by the predicate above only
+			continue
+		}
 		mok := len(r) == 2 && string(r[0]) == "1"
 		if mok != w.ok || (w.ok && string(r[1]) != w.out) {
 			tieOK = false
@@ -120,7 +172,7 @@ func textFile(c *core.Ctx) {
 					mv = string(r[1])
 				}
 				c.Fail("tie", "text file: model dev_write = runtime.WriteString in development mode", "",
-					map[string]string{"file": core.Q([]byte(w.file)), "index": strconv.Itoa(w.index), "impl_ok": fmt.Sprint(w.ok), "impl": core.Q([]byte(w.out)), "impl_panicked": fmt.Sprint(w.panic), "model_ok": fmt.Sprint(mok), "model": core.Q([]byte(mv))},
+					map[string]string{"file": abbr(core.Q([]byte(w.file))), "index": strconv.Itoa(w.index), "impl_ok": fmt.Sprint(w.ok), "impl": core.Q([]byte(w.out)), "impl_panicked": fmt.Sprint(w.panic), "model_ok": fmt.Sprint(mok), "model": core.Q([]byte(mv))},
 					"model and runtime differ on which string a development-mode WriteString writes")
 			}
 		}
@@ -128,6 +180,9 @@ func textFile(c *core.Ctx) {
 	c.Dist["text file: lookups that succeed"] += nOK
 	c.Dist["text file: lookups that fail (index beyond file, malformed line, index 0)"] += len(wants) - nOK
 	for i, r := range c.Model(jreq) {
+		if len(r) == 1 && string(r[0]) == "!stack" {
+			continue
+		}
 		got := ""
 		if len(r) == 1 {
 			got = string(r[0])
@@ -137,6 +192,9 @@ func textFile(c *core.Ctx) {
 		}
 	}
 	for i, r := range c.Model(sreq) {
+		if len(r) == 1 && string(r[0]) == "!stack" {
+			continue
+		}
 		if len(r) != len(swant[i]) {
 			splitOK = false
 			continue
@@ -148,6 +206,44 @@ func textFile(c *core.Ctx) {
 		}
 	}
 	c.Oblige("correspondence", "text file: model dev_write = runtime.WriteString with developmentMode on (every index 0..lines+1 of every generated file)", tieOK, "")
+	c.Oblige("correspondence", "text file: for files of well-formed literals (line lengths 0 to 1 MiB, long line first/middle/last) the development-mode lookup of index i writes what literal i denotes", specOK, "")
 	c.Oblige("correspondence", "text file: model text_file = strings.Join(literals, LF)", joinOK, "")
 	c.Oblige("correspondence", "text file: model split_lf = strings.Split(file, LF)", splitOK, "")
+}
+
+// longLiteral is a well-formed literal of exactly n bytes (an escaped quote, then letters).
+func longLiteral(n int) string {
+	if n < 2 {
+		return strings.Repeat("a", n)
+	}
+	return `\"` + strings.Repeat("a", n-2)
+}
+
+func lenBucket(n int) string {
+	switch {
+	case n == 0:
+		return "0"
+	case n < 4096:
+		return "1..4095"
+	case n < 65536:
+		return "4096..65535"
+	case n < 200000:
+		return "65536..199999"
+	}
+	return ">= 200000"
+}
+
+func abbr(s string) string {
+	if len(s) <= 600 {
+		return s
+	}
+	return s[:300] + fmt.Sprintf(" ...[%d bytes in all]... ", len(s)) + s[len(s)-100:]
+}
+
+func abbrAll(l []string) []string {
+	r := make([]string, len(l))
+	for i, s := range l {
+		r[i] = abbr(s)
+	}
+	return r
 }
